@@ -201,6 +201,12 @@ func formatInput(v interface{}) (interface{}, error) {
 		return n, nil
 	case nil:
 		return nil, nil
+	case *decimal.Big:
+		// a typed nil pointer is null like every other one; as a *decimal.Big it would be taken for a number
+		if n == nil {
+			return nil, nil
+		}
+		return n, nil
 	default:
 		return n, nil
 	}
